@@ -48,6 +48,15 @@ def cases(ctx):
         c = gen.rand_circuit(r, n_in=r.randint(1, 4), n_gates=r.randint(1, 9), max_fanin=4, consts=0.4, out_is_input=0.3, loaded_in_out=0.15)
         if r.random() < 0.2:
             c.graph.add_node("kout", type=r.choice(["0", "1"]), output=True)
+        if r.random() < 0.3:
+            # nets called like helper nets a writer could invent next to an input: <input>_not, <input>_dup, <input>_0
+            import networkx as nx
+
+            gates = [n for n in sorted(c.graph.nodes) if c.graph.nodes[n]["type"] not in ("input", "0", "1")]
+            ins = sorted(n for n in c.graph.nodes if c.graph.nodes[n]["type"] == "input")
+            sfx = r.choice(["_not", "_not", "_dup", "_0", "_buf"])
+            ren = {g: i + sfx for g, i in zip(r.sample(gates, min(len(gates), len(ins))), ins)}
+            nx.relabel_nodes(c.graph, ren, copy=False)
         yield {"op": "roundtrip", "c": proj(c), "src": "G3"}
     from .C18 import rand_cyclic
 
